@@ -23,7 +23,7 @@ Definition staged_with_sentinels (t : list fsop) : bool :=
    3: anything else (in-place protocol: growth of the log region, vacuum, replay, create) *)
 Definition classify (t : list fsop) : N :=
   if only_mem_writes t then 0
-  else if wal_append_ok t then 1
+  else if wal_append_ok t || wal_appends_ok t then 1
   else if staged_with_sentinels t then 2
   else match t with
        | WriteMem a :: FsyncMem :: WriteMem b :: r => if staged_with_sentinels r then 4 else 3
